@@ -17,6 +17,7 @@
 
 import datetime
 import logging
+import re
 import sys
 from pathlib import Path
 from typing import Any, Collection, Iterable, Optional, Sequence, Type, cast
@@ -236,7 +237,13 @@ def get_year(years: Sequence[str], exclude_year: bool) -> Optional[str]:
     if not exclude_year:
         if years:
             if len(years) > 1:
-                year = f"{min(years)} - {max(years)}"
+                # A value may be a range itself ('2015-2017').
+                numbers = [
+                    number
+                    for value in years
+                    for number in re.findall(r"\d{4}", value)
+                ] or list(years)
+                year = f"{min(numbers)} - {max(numbers)}"
             else:
                 year = years[0]
         else:
